@@ -132,6 +132,15 @@ def check(ctx, run):
     lin = [e for e in res1["events"] if e["kind"] == "opaque_call" and isinstance(e["callee"], Sym) and e["callee"].name == "model"]
     ok2 = len(vin) == 1 and len(lin) == 1
     run.oblige("C03.R2", "compute_hedge", ok2, "one model application per branch; per-step inputs agree by R1")
+    # ... and the same final column: both branches report, at the last time index, the position held over the last step (column T-2),
+    # so the all-steps-at-once and the step-by-step hedge agree in every column
+    from .c02 import last_column_is_copy
+    for bname, rr in (("vectorised", resv[0]), ("state-dependent", res1)):
+        okl, why = last_column_is_copy(rr["value"], bname, [e for e in rr["events"] if e["kind"] == "loop_begin"])
+        run.oblige("C03.R2", f"compute_hedge[{bname}]: column T-1 is the position of step T-2", okl, why)
+        if not okl:
+            run.fail(Finding("C03.R2", ch.qualname, f"{bname} branch: {why}", "the two evaluation modes of the hedger disagree in the last column (one of them does not hold the last position)",
+                             file=str(prog.modules[ch.module].path), line=ch.node.lineno, case=bname))
     # R4: both branches return one position per (path, instrument, time step)
     from ..shape import N as Nn, T as Tn, ShapeError, Unknown, shape_of
     Hs = sp.Symbol("H", integer=True, positive=True)
@@ -161,7 +170,7 @@ def check(ctx, run):
                              file=str(prog.modules[ch.module].path), line=ch.node.lineno, case=label))
 
 
-def containers(ctx, run):
+def containers(ctx, run, rule="C03.R5"):
     """R5: FeatureList.get concatenates the per-feature tensors in declared order along the feature axis, for a step and for all steps;
     ModuleOutput.get applies its module to exactly that tensor"""
     from ..equiv import same
@@ -171,7 +180,7 @@ def containers(ctx, run):
     if flget is None or moget is None:
         raise AnalysisError("anchor vanished: FeatureList.get / ModuleOutput.get")
     run.functions.update({flget.qualname, moget.qualname})
-    run.require("C03.R5", 4)
+    run.require(rule, 4)
     d = W.option()
     fa, fb = W.feature("Moneyness", derivative=d, log=False), W.feature("TimeToMaturity", derivative=d)
     fl = Obj(FL, "inputs", {"features": [fa, fb]})
@@ -184,17 +193,17 @@ def containers(ctx, run):
         v = res[0]["value"] if len(res) == 1 else None
         dim = v.kwd().get("dim", v.args[1] if isinstance(v, Op) and len(v.args) > 1 else None) if isinstance(v, Op) else None
         ok = isinstance(v, Op) and v.op == "cat" and isinstance(v.args[0], (list, tuple)) and len(v.args[0]) == 2 and dim == -1 and all(same(a, b) for a, b in zip(v.args[0], parts))
-        run.oblige("C03.R5", f"FeatureList.get [{label}] == cat([f.get(.) for f in features], dim=-1) in declared order", ok, str(v)[:160])
+        run.oblige(rule, f"FeatureList.get [{label}] == cat([f.get(.) for f in features], dim=-1) in declared order", ok, str(v)[:160])
         if not ok:
-            run.fail(Finding("C03.R5", flget.qualname, f"[{label}] {str(v)[:200]}", "the model input is not the declared features, in order, along the last axis", file=str(prog.modules[flget.module].path), line=flget.node.lineno, case=label))
+            run.fail(Finding(rule, flget.qualname, f"[{label}] {str(v)[:200]}", "the model input is not the declared features, in order, along the last axis", file=str(prog.modules[flget.module].path), line=flget.node.lineno, case=label))
         mod = Sym("mod", ("callable",))
         mo = Obj(MO, "mo", {"inputs": fl, "module": mod})
         resm = [r for r in interp.explore(moget, [ts], {}, self_obj=mo) if not r["raises"]]
         vm = resm[0]["value"] if len(resm) == 1 else None
         okm = v is not None and isinstance(vm, Op) and vm.op == "call" and vm.args[0] == mod and len(vm.args) == 2 and not vm.kw and same(vm.args[1], v)
-        run.oblige("C03.R5", f"ModuleOutput.get [{label}] == module(inputs.get(.))", okm, str(vm)[:120])
+        run.oblige(rule, f"ModuleOutput.get [{label}] == module(inputs.get(.))", okm, str(vm)[:120])
         if not okm:
-            run.fail(Finding("C03.R5", moget.qualname, f"[{label}] {str(vm)[:200]}", "the module feature is not its module applied to its inputs at the same step", file=str(prog.modules[moget.module].path), line=moget.node.lineno, case=label))
+            run.fail(Finding(rule, moget.qualname, f"[{label}] {str(vm)[:200]}", "the module feature is not its module applied to its inputs at the same step", file=str(prog.modules[moget.module].path), line=moget.node.lineno, case=label))
 
 
 def feature_shapes(ctx, run):
